@@ -19,7 +19,6 @@ from harness.props.C20 import brief, design, leaves
 
 CLAUSES = {"RenderedLiteralIsValidPython", "EvaluatesToRequestedType", "RoundTrip", "ParseBackAgrees"}
 MODEL = {"RaiseFollowsModel", "ShapeFollowsModel", "BackFollowsModel", "FallbackIsNone"}
-CULPRITS = ["i_digits", "f_negzero"]
 NEGZERO = (-0.0).hex()
 
 
@@ -31,15 +30,20 @@ def _flags(f: dict) -> str:
     return ",".join(f"{k}={f[k]}" for k in sorted(f))
 
 
-def culprit(ev: dict) -> str:
+def _short(d: dict) -> dict:
+    """Descriptor with long canonical keys (huge ints, long strings) abbreviated, for messages."""
+    c = d["c"] if len(d["c"]) <= 40 else d["c"][:24] + f"...({len(d['c'])} chars)"
+    return {"k": d["k"], "c": c, "es": [_short(e) for e in d["es"]]}
+
+
+def culprit(ev: dict, clause: str) -> str:
+    """Attribution only (makes the signature; the verdict is TLC's)."""
     if ev["op"] == "render":
         present = set(leaves(ev["case"]))
-        if ev["case"]["k"] == "complex" or "complex" in present:
-            if _has_negzero(ev["v"]):
-                return "f_negzero"
-        for c in CULPRITS:
-            if c in present:
-                return c
+        if clause == "RenderedLiteralIsValidPython" and ev["raised"] == "ValueError" and "i_digits" in present:
+            return "i_digits"
+        if clause in ("RoundTrip", "ParseBackAgrees") and _has_negzero(ev["v"]):
+            return "f_negzero"
         return brief(ev["case"]) + (f"#{ev['m']}" if ev["m"] else "")
     if ev.get("seeded") and _has_negzero(ev["seedv"]):
         return f"{ev['req']}/seeded-f_negzero"
@@ -47,17 +51,18 @@ def culprit(ev: dict) -> str:
 
 
 def signature(ev: dict, clause: str) -> str:
-    return f"C23/{clause}/{ev['op']}/{culprit(ev)}"
+    return f"C23/{clause}/{ev['op']}/{culprit(ev, clause)}"
 
 
 def describe(ev: dict) -> str:
     if ev["op"] == "render":
         return (f"literal_to_cst({brief(ev['case'])} member {ev['m']}) -> {ev['code']!r} raised={ev['raised'] or '-'} "
-                f"compiles={ev['compiles']} evalok={ev['evalok']} value={ev['v']} back={ev['back']} "
-                f"parsed={'-' if not ev['p_some'] else ev['parsed']}")
+                f"compiles={ev['compiles']} evalok={ev['evalok']} value={_short(ev['v'])} back={_short(ev['back'])} "
+                f"parsed={'-' if not ev['p_some'] else _short(ev['parsed'])}")
     return (f"{ev['op']} {ev['req']} [{_flags(ev['flags'])}] draw {ev['i']} -> {ev['code']!r} raised={ev['raised'] or '-'} "
-            f"compiles={ev['compiles']} evalok={ev['evalok']} back={ev['back']} re-rendered={ev['back2']} "
-            f"seeded={ev['seedv'] if ev['seeded'] else '-'} parsed={'-' if not ev['p_some'] else ev['parsed']}")
+            f"compiles={ev['compiles']} evalok={ev['evalok']} back={_short(ev['back'])} re-rendered={_short(ev['back2'])} "
+            f"seeded={_short(ev['seedv']) if ev['seeded'] else '-'} "
+            f"parsed={'-' if not ev['p_some'] else _short(ev['parsed'])}")
 
 
 def observe(ctx: Ctx):
